@@ -15,8 +15,8 @@ From Coq Require Import List.
 From Coq Require Strings.String.
 Import ListNotations.
 Import Coq.Strings.String.StringSyntax.
-From GoCar Require Import Bytes Monitor GeneratedLockFacts RunConc.
-From GoCarProofs Require Import MonitorDRF MonitorLive MonitorInst MonitorExec MonitorFacts MonitorLin MonitorReduce.
+From GoCar Require Import Bytes Varint Cid Header Frame V2Header Index Store StoreSpec Deferred Monitor GeneratedLockFacts RunConc.
+From GoCarProofs Require Import CidFacts StoreInv MonitorDRF MonitorLive MonitorInst MonitorExec MonitorFacts MonitorLin MonitorReduce MonitorStore.
 Local Open Scope string_scope.
 
 (* the generated tables are those of the four types, and every path of every operation of every
@@ -93,66 +93,162 @@ Proof. exact facts_listed_blocking. Qed.
 Print Assumptions C08_blocking_while_holding_a_lock_only_at_reviewed_sites.
 
 (* From micro-steps to atomic sections (programs with data; Monitor.v section Data): threads are
-   resumptions -- what a call does next may depend on every value it has read -- over one RW mutex,
-   critical sections not nested, no goroutine creation.  If every thread obeys the lock discipline
-   ([pok]: shared fields are read only under the lock, written only under the exclusive lock, fields
-   read without the lock are never written) then every configuration the micro-step machine reaches,
-   with reads and writes of different threads interleaved arbitrarily, is matched by a configuration
-   of the machine that has NO locks and runs each critical section from acquire to release in ONE
-   step: threads outside a section are in the same state, and whenever no writer is inside a section
-   the stores are equal.  The atomic machine takes a section's step when the micro-step machine
-   performs its release, i.e. between the call's first and last action.  The discipline on
-   resumptions follows from the discipline [ok] on their lock/access traces, which is what
-   harness/lockfacts extracts and C08_lock_discipline_holds checks. *)
+   resumptions -- what a call does next may depend on every value it has read.  Mutex 0 is the
+   object's outer RW lock; a critical section = from its acquisition to its release.  Covered:
+   inner mutexes taken inside an exclusive outer section and released before it (the pair
+   DeferredCarWriter.lk -> StorageCar.mu), hand-off of a shared section to a new goroutine that
+   finishes it (ReadOnly.AllKeysChan), goroutines started inside an exclusive section that do nothing
+   before they lock or return (ReadWrite.AllKeysChan after the repair).
+   If every thread obeys the lock discipline ([pok]: shared fields are read only under their lock,
+   written only under it exclusively, fields read without a lock are never written, the nesting and
+   hand-off rules above) then every configuration the micro-step machine reaches, with reads and
+   writes of different threads interleaved arbitrarily, is matched by a configuration of the machine
+   that has NO locks and runs each critical section -- inner locks, handed-off part and all -- in ONE
+   step: threads that hold nothing are in the same state ([main]; the goroutines [pend] that an open
+   exclusive section has already started exist only in the micro-step machine until the section ends),
+   and whenever no writer is inside a section the stores are equal.  The atomic machine takes a
+   section's step when the micro-step machine releases mutex 0, or, for a shared section that is handed
+   off, at the hand-off: in both cases between the call's first and last action. *)
 Theorem C08_micro_steps_reduce_to_atomic_sections :
-  forall (V R : Type) (exempt : nat -> bool) (s : store V) (ps : list (prog V R)) (c : dcfg V R),
-    Forall (pok V R exempt None) ps ->
+  forall (V R : Type) (exempt : nat -> bool) (guard : nat -> nat)
+         (s : store V) (ps : list (prog V R)) (c : dcfg V R),
+    Forall (pok V R exempt guard true []) ps ->
     dsteps V R (dinit V R s ps) c ->
-    exists a, asteps V R exempt (ainit V R s ps) a /\
-      Forall2 (fun t p => dh V R t = None -> p = dp V R t) (dts V R c) (ats V R a) /\
-      (dwl V R c = false -> forall f, dst V R c f = ast V R a f).
+    exists a main pend, asteps V R exempt (ainit V R s ps) a /\
+      dts V R c = main ++ map (fun p => {| dh := []; dp := p |}) pend /\
+      Forall2 (fun t p => hget (dh V R t) 0 = None -> p = dp V R t) main (ats V R a) /\
+      (wl (dlk V R c 0) = false -> pend = [] /\ forall f, dst V R c f = ast V R a f).
 Proof. exact micro_steps_reduce_to_atomic_sections. Qed.
 Print Assumptions C08_micro_steps_reduce_to_atomic_sections.
 
 Theorem C08_terminated_runs_are_runs_of_atomic_sections :
-  forall (V R : Type) (exempt : nat -> bool) (s : store V) (ps : list (prog V R)) (c : dcfg V R) (rs : list R),
-    Forall (pok V R exempt None) ps ->
+  forall (V R : Type) (exempt : nat -> bool) (guard : nat -> nat)
+         (s : store V) (ps : list (prog V R)) (c : dcfg V R) (rs : list R),
+    Forall (pok V R exempt guard true []) ps ->
     dsteps V R (dinit V R s ps) c ->
-    dts V R c = map (fun r => {| dh := None; dp := PRet V R r |}) rs ->
+    dts V R c = map (fun r => {| dh := []; dp := PRet V R r |}) rs ->
     exists a, asteps V R exempt (ainit V R s ps) a /\ ats V R a = map (PRet V R) rs /\
               forall f, dst V R c f = ast V R a f.
 Proof. exact terminated_runs_are_atomic. Qed.
 Print Assumptions C08_terminated_runs_are_runs_of_atomic_sections.
 
+(* the generated tables have the shape that theorem needs beyond the discipline: every mutex other than
+   the object's outer one is taken only inside an exclusive outer section and released before it; the one
+   hand-off happens holding exactly the outer lock shared, into a goroutine that starts none; goroutines
+   started inside a section are started under the exclusive lock and consist of blocking sites only;
+   goroutines started outside any section (escaping closures of BlockWriteOpener) are inert *)
+Theorem C08_tables_have_the_shape_of_the_reduction :
+  Forall (fun I => reduction_shape_violations I = []) facts.
+Proof. exact facts_reduction_shape. Qed.
+Print Assumptions C08_tables_have_the_shape_of_the_reduction.
+
+(* ... and for resumptions that start no goroutine, the discipline [pok] follows from [ok] and that shape
+   check on their act traces (the things computed on the generated tables) *)
 Theorem C08_trace_discipline_gives_program_discipline :
-  forall (V R : Type) (exempt : nat -> bool) (v0 : V) (listed : nat -> bool) (tbl : list (held * path))
-         (p : prog V R) (h : option mode),
+  forall (V R : Type) (exempt : nat -> bool) (guard : nat -> nat) (v0 : V)
+         (listed : nat -> bool) (tbl : list (held * path)) (p : prog V R) (ho : bool) (h : held),
+    nospawn V R p ->
     (forall t, ptrace V R p t ->
-       ok (fun _ => 0%nat) exempt listed tbl (match h with Some md => [(0%nat, md)] | None => [] end) t = true) ->
-    pok V R exempt h p.
+       ok guard exempt listed tbl h t = true /\ shape_code tbl h t = true) ->
+    pok V R exempt guard ho h p.
 Proof. exact pok_of_traces. Qed.
 Print Assumptions C08_trace_discipline_gives_program_discipline.
 
-(* Linearizability, stated over the atomic-section semantics: every call is an invocation, ONE atomic
-   step of the sequential specification (its critical section) and a response.  Every such execution
-   passes the linearizability check with the order of the critical sections as witness: that order
-   lists every call once, never puts a call after one that was invoked after it returned, and the
-   sequential specification replayed along it yields exactly the results the calls returned.
-   _partial: the chain from the Go code to this statement has these links --
-     (1) today's source obeys the lock discipline: C08_lock_discipline_holds (translator + vm_compute);
-     (2) discipline => sections are isolated (C08_critical_sections_are_isolated) and, for programs
-         with data, every micro-step execution is an execution of atomically executed sections
-         (C08_micro_steps_reduce_to_atomic_sections): PROVED for one RW mutex, sections not nested, no
-         goroutine creation.  NOT proved: the same reduction with the nested pair
-         DeferredCarWriter.lk -> StorageCar.mu (there every access happens under the exclusive outer
-         lock, so the one-mutex theorem applies to lk with the inner lock ignored -- an argument, not a
-         theorem), with goroutine creation inside a section (ReadWrite.AllKeysChan after the repair
-         starts a goroutine that touches no shared field: its table entry contains only Blk), and
-         with lock hand-off (ReadOnly.AllKeysChan; ReadOnly alone is not one of the property's objects);
-     (3) the atomic step of each critical section is spec_step: NOT proved -- that is the sequential
-         behaviour of the code (C04's store model); here it is sampled by the differential runs: every
-         observed history must pass lin_check, which replays spec_step;
-     (4) atomic sections => linearizable: this theorem. *)
+(* Linearizability against the map specification of C04.  [impl_step hdrdec f] is StoreSpec's dispatcher
+   onto the functions of Store.v that model blockstore.ReadWrite (f = FBs) and storage.StorageCar;
+   [StoreSpec.spec_step] is the reference append-only content-addressed map; C04_refines_map proves that
+   they return the same results on every sequential history.  Here: an execution in which every call's
+   critical section is ONE application of impl_step (atomic-section semantics: invocation, the section,
+   response; otherwise arbitrary interleaving of any number of calls) returns exactly the results the MAP
+   returns when the calls are run one after the other in an order w that contains every call once and
+   never puts a call after one that was invoked after it returned.  Hypotheses: those of C04_refines_map
+   (no 64-bit wrap-around, header oracle inverts the encoder, well-formed CIDs and sections within the
+   limits for what is put, no write faults). *)
+Theorem C08_store_sections_linearizable_wrt_map_spec :
+  forall (hdrdec : bytes -> option (list bytes * N)) (k : skind) (o : wopts) (nilroots : bool)
+         (roots : list bytes) (s0 : wstate) (f : front) (ops : list sop) (tr : list ev),
+    51 + w_dpad o + w_ipad o < two64 ->
+    hdrdec (enc_header (roots_opt nilroots roots) 1) = Some (roots, 1) ->
+    blen (enc_header (roots_opt nilroots roots) 1) <= w_maxh o ->
+    blen (enc_header (roots_opt nilroots roots) 1) < two63 ->
+    open_new k o nilroots roots [] = Ok s0 ->
+    (Forall (fun op =>
+       match op with
+       | OpPut c d =>
+           cid_parse (fst (c, d)) <> None ->
+           (exists p, cid_ok p /\ fst (c, d) = cid_enc p /\ blen (c_digest p) <= max_digest_alloc) /\
+           blen (fst (c, d)) + blen (snd (c, d)) <= w_maxs o /\ blen (fst (c, d)) + blen (snd (c, d)) < two63
+       | OpPutMany l =>
+           Forall (fun b =>
+             cid_parse (fst b) <> None ->
+             (exists p, cid_ok p /\ fst b = cid_enc p /\ blen (c_digest p) <= max_digest_alloc) /\
+             blen (fst b) + blen (snd b) <= w_maxs o /\ blen (fst b) + blen (snd b) < two63) l
+       | _ => True
+       end) ops /\
+     51 + w_dpad o + w_ipad o + ld_size (blen (enc_header (roots_opt nilroots roots) 1)) + ops_size ops < two64) ->
+    wf_trace (List.length ops) tr ->
+    exists w : list nat,
+      perm_ok (List.length ops) w = true /\
+      rt_ok (hist_of (List.length ops) tr) w = true /\
+      gresults wstate sop out (impl_step hdrdec f) OpRoots s0 ops tr
+      = combine w (gexec mstate sop out (StoreSpec.spec_step f o roots) m_empty
+                         (ops_along sop OpRoots ops w)).
+Proof. exact store_sections_linearizable_wrt_map. Qed.
+Print Assumptions C08_store_sections_linearizable_wrt_map_spec.
+
+(* the same for ANY sequential model of an object, in particular for C20's model of the deferred writer
+   ([Deferred.d_step]; C20_identical / C20_put_result_is_direct relate it to the StorageCar model) *)
+Theorem C08_sections_of_any_model_are_linearizable :
+  forall (St Op Res : Type) (step : St -> Op -> St * Res) (dflt : Op) (s0 : St) (ops : list Op) (tr : list ev),
+    wf_trace (List.length ops) tr ->
+    exists w : list nat,
+      perm_ok (List.length ops) w = true /\
+      rt_ok (hist_of (List.length ops) tr) w = true /\
+      gresults St Op Res step dflt s0 ops tr = combine w (gexec St Op Res step s0 (ops_along Op dflt ops w)).
+Proof. exact (@atomic_sections_linearizable_gen). Qed.
+Print Assumptions C08_sections_of_any_model_are_linearizable.
+
+Theorem C08_deferred_sections_linearizable_wrt_C20_model :
+  forall (c : Deferred.dcfg) (ops : list dop) (tr : list ev),
+    wf_trace (List.length ops) tr ->
+    exists w : list nat,
+      perm_ok (List.length ops) w = true /\
+      rt_ok (hist_of (List.length ops) tr) w = true /\
+      gresults dstate dop dout (d_step c) DClose d_init ops tr
+      = combine w (gexec dstate dop dout (d_step c) d_init (ops_along dop DClose ops w)).
+Proof. exact deferred_sections_linearizable. Qed.
+Print Assumptions C08_deferred_sections_linearizable_wrt_C20_model.
+
+(* Linearizability of the id-level specification the dynamic runs are checked against (RunConc.spec_step:
+   blocks are small ids; what the harness' workloads can observe), with the executable check [lin_check]
+   that the extracted driver evaluates on every observed history.
+   _partial -- the chain from the Go code to "linearizable with respect to the map", link by link:
+     (1) today's source obeys the lock discipline and every operation is one critical section:
+         C08_lock_discipline_holds, C08_every_operation_is_one_critical_section (translator + vm_compute);
+     (2) discipline => sections are isolated (C08_critical_sections_are_isolated) and every micro-step
+         execution of programs with data is an execution of atomically executed sections
+         (C08_micro_steps_reduce_to_atomic_sections): PROVED for one outer RW mutex per object with inner
+         mutexes inside exclusive sections (DeferredCarWriter.lk -> StorageCar.mu), hand-off of a shared
+         section (ReadOnly.AllKeysChan), goroutines started inside an exclusive section that do nothing
+         before they lock or return (ReadWrite.AllKeysChan).  NOT covered by the theorem: hand-off of an
+         EXCLUSIVE section, a hand-off inside a handed-off section, goroutines started outside a section or
+         inside a shared one, goroutines that read never-written fields before their first lock operation,
+         inner mutexes under a SHARED outer section or taken without the outer one (none of these occurs
+         in the four types; a StorageCar shared between a DeferredCarWriter and direct callers would be the
+         last case); that the tables stay inside the covered shape is checked:
+         C08_tables_have_the_shape_of_the_reduction.  The discipline [pok] of that theorem is on resumptions;
+         it follows from [ok] + the shape check on their act traces
+         (C08_trace_discipline_gives_program_discipline, for resumptions that start no goroutine); that the
+         generated tables ARE the act traces of the Go methods is the translator's soundness, trusted;
+     (3) the atomic step of each critical section is Store.v's function for that operation (impl_step), resp.
+         Deferred.d_step: NOT proved -- this is "Store.v models the code", which C04 / C20 sample
+         sequentially and the C08 histories sample concurrently (every observed history is replayed through
+         the id-level specification by lin_check);
+     (4) atomic sections of impl_step => linearizable with respect to the reference map:
+         C08_store_sections_linearizable_wrt_map_spec (uses C04_refines_map);
+         for the deferred writer with respect to C20's model: C08_deferred_sections_linearizable_wrt_C20_model;
+     (5) RunConc.spec_step (ids) is not formally related to StoreSpec.spec_step (CIDs and bytes): it is the
+         projection of the map to what the workloads observe, validated by the same differential runs. *)
 Theorem C08_linearizable_partial :
   forall (store : N) (v1 : bool) (ops : list cop) (tr : list ev),
     wf_trace (List.length ops) tr ->
